@@ -1,22 +1,9 @@
 import Vata.Proofs.LtsContainerInv
 /-!
-# `ExplicitLTS` container: the invariant of `bwLabels_` over every history and the views after `init()` (C16)
+# `ExplicitLTS` container: the invariant of `bwLabels_` over every history and the views after the repaired `init()` (C16)
 -/
 namespace Vata.LC
 open Vata.L
-
-theorem getD_resizeL' {α : Type} (d d' : α) (l : List α) (n i : Nat) (h : l.length ≤ n) (hi : i < n) :
-    (resizeL d l n).getD i d' = if i < l.length then l.getD i d' else d := by
-  unfold resizeL
-  rw [List.take_of_length_le h]
-  simp only [List.getD_eq_getElem?_getD]
-  by_cases hl : i < l.length
-  · rw [List.getElem?_append_left hl, if_pos hl]
-  · rw [List.getElem?_append_right (by omega), List.getElem?_replicate, if_neg hl, if_pos (by omega)]; rfl
-
-theorem getD_mem {α : Type} (d : α) (l : List α) (i : Nat) (h : i < l.length) : l.getD i d ∈ l := by
-  simp only [List.getD_eq_getElem?_getD, List.getElem?_eq_getElem h, Option.getD_some]
-  exact List.getElem_mem h
 
 theorem mem_getD {α : Type} (d : α) (l : List α) (x : α) (h : x ∈ l) : ∃ i, i < l.length ∧ l.getD i d = x := by
   obtain ⟨i, hi, e⟩ := List.getElem_of_mem h
@@ -25,150 +12,88 @@ theorem mem_getD {α : Type} (d : α) (l : List α) (x : α) (h : x ∈ l) : ∃
 theorem pre_nil_of_ge (c : LtsC) (a r : Nat) (h : c.data.length ≤ a) : c.pre a r = [] := by
   simp [LtsC.pre, List.getD_eq_getElem?_getD, List.getElem?_eq_none h]
 
-/-- the invariant of the index of incoming labels (holds after EVERY history, `binv_run`) -/
+/-- the invariant of the index of incoming labels (holds after EVERY history of the repaired class, `binv_run`): no set was
+ever asked for a key out of its range, and a label that is in the index of `r` has an edge into `r` -/
 structure BInv (c : LtsC) : Prop where
   len : c.bw.length ≤ c.states
-  range : ∀ r, r < c.bw.length → (c.bw.getD r default).range ≤ c.data.length
-  bad : ∀ r, r < c.bw.length → (c.bw.getD r default).bad = true → c.ub = true
-  keys : c.ub = false → ∀ r, r < c.bw.length →
+  ub : c.ub = false
+  bad : ∀ r, r < c.bw.length → (c.bw.getD r default).bad = false
+  keys : ∀ r, r < c.bw.length →
     (c.bw.getD r default).keys.Nodup ∧ ∀ a ∈ (c.bw.getD r default).keys, c.pre a r ≠ []
 
-theorem binv_empty (c : LtsC) (h : c.bw = []) : BInv c :=
-  ⟨by simp [h], fun r hr => by simp [h] at hr, fun r hr => by simp [h] at hr, fun _ r hr => by simp [h] at hr⟩
+theorem binv_empty (c : LtsC) (h : c.bw = []) (hu : c.ub = false) : BInv c :=
+  ⟨by simp [h], hu, fun r hr => by simp [h] at hr, fun r hr => by simp [h] at hr⟩
 
 theorem binv_add (L : LTS) (c : LtsC) (d : DInv L c) (b : BInv c) (q a r : Nat) : BInv (addTransition c q a r) := by
   have hbw : (addTransition c q a r).bw = c.bw := rfl
   have hub : (addTransition c q a r).ub = c.ub := rfl
-  refine ⟨?_, fun r' hr => ?_, fun r' hr => ?_, fun hu r' hr => ?_⟩
+  refine ⟨?_, by rw [hub]; exact b.ub, fun r' hr => ?_, fun r' hr => ?_⟩
   · rw [hbw, addTransition_states c q a r (d.lens a).1 (d.lens a).2]; have := b.len; omega
-  · rw [hbw] at hr ⊢; rw [addTransition_data_length]; have := b.range r' hr; omega
-  · rw [hbw] at hr ⊢; rw [hub]; exact b.bad r' hr
-  · rw [hbw] at hr ⊢; rw [hub] at hu
-    refine ⟨(b.keys hu r' hr).1, fun a' ha => ?_⟩
+  · rw [hbw] at hr ⊢; exact b.bad r' hr
+  · rw [hbw] at hr ⊢
+    refine ⟨(b.keys r' hr).1, fun a' ha => ?_⟩
     rw [addTransition_pre]
     split
     · simp
-    · exact (b.keys hu r' hr).2 a' ha
+    · exact (b.keys r' hr).2 a' ha
 
-/-- the start value of set `r` in `init()` (after `bwLabels_.resize`) -/
-theorem init_start (c : LtsC) (b : BInv c) (r : Nat) (hr : r < c.states) :
-    (resizeL (SSet.new c.data.length) c.bw c.states).getD r default =
-      if r < c.bw.length then c.bw.getD r default else SSet.new c.data.length :=
-  getD_resizeL' _ _ _ _ _ b.len hr
+/-- set `r` after the repaired `init()`: the fresh set of the current range taken through all labels; the old `bwLabels_`
+does not occur -/
+theorem init_set (L : LTS) (c : LtsC) (d : DInv L c) (r : Nat) (hr : r < c.states) :
+    (init c).bw.getD r default = initSetF (fun a => (c.pre a r).length) (SSet.new c.data.length) c.data.length := by
+  rw [(init_spec c (fun a => (d.lens a).2)).2.2.2.2.2.1 r hr, initSet_eq]; rfl
 
-/-- set `r` after `init()` -/
-theorem init_set (L : LTS) (c : LtsC) (d : DInv L c) (b : BInv c) (r : Nat) (hr : r < c.states) :
-    (init c).bw.getD r default =
-      initSetF (fun a => (c.pre a r).length)
-        (if r < c.bw.length then c.bw.getD r default else SSet.new c.data.length) c.data.length := by
-  rw [(init_spec c (fun a => (d.lens a).2)).2.2.2.2.2.1 r hr, init_start c b r hr, initSet_eq]; rfl
-
-theorem init_ub_false (L : LTS) (c : LtsC) (d : DInv L c) (b : BInv c) (h : (init c).ub = false) :
-    c.ub = false ∧ ∀ r, r < c.bw.length → (c.bw.getD r default).range = c.data.length := by
+/-- the repaired `init()` never asks a set for a key out of its range -/
+theorem init_ub (L : LTS) (c : LtsC) (d : DInv L c) : (init c).ub = c.ub := by
   have hs := init_spec c (fun a => (d.lens a).2)
-  rw [hs.2.2.2.2.2.2] at h
-  simp only [Bool.or_eq_false_iff] at h
-  refine ⟨h.1, fun r hr => ?_⟩
-  have hr' : r < c.states := Nat.lt_of_lt_of_le hr b.len
-  have hm : (init c).bw.getD r default ∈ (init c).bw := getD_mem _ _ _ (by rw [hs.2.2.2.2.1]; exact hr')
-  have hb : ((init c).bw.getD r default).bad = false := by
-    have := h.2
-    rw [List.any_eq_false] at this
-    simpa using this _ hm
-  rw [init_set L c d b r hr', if_pos hr, initSetF_bad] at hb
-  simp only [Bool.or_eq_false_iff, decide_eq_false_iff_not] at hb
-  have := b.range r hr
-  omega
+  have : (init c).bw.any (·.bad) = false := by
+    rw [List.any_eq_false]
+    intro s hs'
+    obtain ⟨r, hr', e⟩ := mem_getD default _ _ hs'
+    rw [hs.2.2.2.2.1] at hr'
+    rw [← e, init_set L c d r hr', (initSetF_new _ _).2.1]
+    simp
+  rw [hs.2.2.2.2.2.2, this, Bool.or_false]
 
-/-- what `init()` does about out-of-range keys: it stays clean exactly when every set that exists already was created for
-the present number of labels -/
-theorem init_ub_iff (L : LTS) (c : LtsC) (d : DInv L c) (b : BInv c) :
-    (init c).ub = false ↔ c.ub = false ∧ ∀ r, r < c.bw.length → (c.bw.getD r default).range = c.data.length := by
-  refine ⟨init_ub_false L c d b, fun ⟨hu, hr⟩ => ?_⟩
-  have hs := init_spec c (fun a => (d.lens a).2)
-  rw [hs.2.2.2.2.2.2, hu, Bool.false_or, List.any_eq_false]
-  intro s hs'
-  obtain ⟨r, hr', e⟩ := mem_getD default _ _ hs'
-  rw [hs.2.2.2.2.1] at hr'
-  rw [← e, init_set L c d b r hr', initSetF_bad]
-  by_cases l : r < c.bw.length
-  · rw [if_pos l, hr r l]
-    have : (c.bw.getD r default).bad = false := by
-      cases hb : (c.bw.getD r default).bad
-      · rfl
-      · have := b.bad r l hb; rw [hu] at this; cases this
-    rw [this]; simp
-  · rw [if_neg l]; simp [SSet.new]
-
-/-- the facts about set `r` after a clean `init()` -/
-theorem init_set_facts (L : LTS) (c : LtsC) (d : DInv L c) (b : BInv c) (h : (init c).ub = false) (r : Nat) (hr : r < c.states) :
-    ((init c).bw.getD r default).keys.Nodup ∧
-    (∀ a, a ∈ ((init c).bw.getD r default).keys ↔ a < c.data.length ∧ c.pre a r ≠ []) ∧
-    (∀ a, a < c.data.length → ((init c).bw.getD r default).count a = (c.pre a r).length) ∧
-    ((init c).bw.getD r default).range = c.data.length ∧
-    ((init c).bw.getD r default).keys =
-      (if r < c.bw.length then (c.bw.getD r default).keys else []) ++
-      (List.range c.data.length).filter (fun a => decide (0 < (c.pre a r).length) &&
-        !(if r < c.bw.length then (c.bw.getD r default).keys else []).contains a) := by
-  obtain ⟨hu, hrg⟩ := init_ub_false L c d b h
-  rw [init_set L c d b r hr]
-  generalize hs0 : (if r < c.bw.length then c.bw.getD r default else SSet.new c.data.length) = s0
-  have hrange : s0.range = c.data.length := by
-    rw [← hs0]; split
-    · exact hrg r ‹_›
-    · rfl
-  have hkeys : s0.keys = if r < c.bw.length then (c.bw.getD r default).keys else [] := by
-    rw [← hs0]; split <;> rfl
-  have hold : s0.keys.Nodup ∧ ∀ a ∈ s0.keys, c.pre a r ≠ [] := by
-    rw [hkeys]; split
-    · exact b.keys hu r ‹_›
-    · simp
-  have hpos : ∀ a ∈ s0.keys, 0 < (fun a => (c.pre a r).length) a := fun a ha =>
-    List.length_pos_iff.2 (hold.2 a ha)
-  have hk : c.data.length ≤ s0.range := by omega
-  refine ⟨initSetF_nodup _ _ hpos hold.1 _ hk, fun a => ?_, fun a ha => initSetF_count _ _ _ hk a ha,
-    by rw [initSetF_range, hrange], by rw [initSetF_keys _ _ hpos _ hk, hkeys]⟩
-  rw [initSetF_mem _ _ hpos _ hk]
-  constructor
-  · rintro (h1 | ⟨h1, h2⟩)
-    · have hne := hold.2 a h1
-      refine ⟨?_, hne⟩
-      by_cases l : a < c.data.length
-      · exact l
-      · exact absurd (pre_nil_of_ge c a r (by omega)) hne
-    · exact ⟨h1, List.length_pos_iff.1 h2⟩
-  · rintro ⟨h1, h2⟩; exact Or.inr ⟨h1, List.length_pos_iff.2 h2⟩
+/-- the facts about set `r` after `init()` -/
+theorem init_set_facts (L : LTS) (c : LtsC) (d : DInv L c) (r : Nat) (hr : r < c.states) :
+    ((init c).bw.getD r default).range = c.data.length ∧ ((init c).bw.getD r default).bad = false ∧
+    ((init c).bw.getD r default).keys = (List.range c.data.length).filter (fun a => decide (0 < (c.pre a r).length)) ∧
+    (∀ a, ((init c).bw.getD r default).count a = (c.pre a r).length) := by
+  rw [init_set L c d r hr]
+  have f := initSetF_new (fun a => (c.pre a r).length) c.data.length
+  refine ⟨f.1, f.2.1, f.2.2.1, fun a => ?_⟩
+  by_cases l : a < c.data.length
+  · exact f.2.2.2.1 a l
+  · rw [f.2.2.2.2 a (by omega), pre_nil_of_ge c a r (by omega)]; rfl
 
 theorem binv_init (L : LTS) (c : LtsC) (d : DInv L c) (b : BInv c) : BInv (init c) := by
   have hs := init_spec c (fun a => (d.lens a).2)
-  refine ⟨by rw [hs.2.2.2.2.1, hs.1]; exact Nat.le_refl _, fun r hr => ?_, fun r hr hb => ?_, fun hu r hr => ?_⟩
+  refine ⟨by rw [hs.2.2.2.2.1, hs.1]; exact Nat.le_refl _, by rw [init_ub L c d]; exact b.ub, fun r hr => ?_, fun r hr => ?_⟩
   · rw [hs.2.2.2.2.1] at hr
-    rw [init_set L c d b r hr, initSetF_range, hs.2.2.1]
-    split
-    · exact b.range r ‹_›
-    · exact Nat.le_refl _
-  · rw [hs.2.2.2.2.2.2]
-    have : (init c).bw.any (·.bad) = true := List.any_eq_true.2 ⟨_, getD_mem default _ _ hr, hb⟩
-    simp [this]
+    exact (init_set_facts L c d r hr).2.1
   · rw [hs.2.2.2.2.1] at hr
-    have f := init_set_facts L c d b hu r hr
-    refine ⟨f.1, fun a ha => ?_⟩
+    have f := init_set_facts L c d r hr
+    rw [f.2.2.1]
+    refine ⟨List.Nodup.sublist List.filter_sublist List.nodup_range, fun a ha => ?_⟩
     rw [init_pre c d.lens]
-    exact ((f.2.1 a).1 ha).2
+    have := (List.mem_filter.1 ha).2
+    simp only [decide_eq_true_eq] at this
+    exact List.length_pos_iff.1 this
 
 theorem binv_step (L : LTS) (c : LtsC) (d : DInv L c) (b : BInv c) (op : Op) : BInv (step c op) := by
   cases op with
-  | construct n => exact binv_empty _ rfl
+  | construct n => exact binv_empty _ rfl b.ub
   | add q a r => exact binv_add L c d b q a r
   | init => exact binv_init L c d b
-  | clear => exact binv_empty _ rfl
+  | clear => exact binv_empty _ rfl b.ub
 
 theorem binv_foldl (h : List Op) : ∀ (L : LTS) (c : LtsC), DInv L c → BInv c → BInv (h.foldl step c) := by
   induction h with
   | nil => intro L c _ b; exact b
   | cons op h ih => intro L c d b; exact ih _ _ (dinv_step L c d op) (binv_step L c d b op)
 
-theorem binv_run (h : List Op) : BInv (run h) := binv_foldl h _ _ (dinv_construct 0 false) (binv_empty _ rfl)
+theorem binv_run (h : List Op) : BInv (run h) := binv_foldl h _ _ (dinv_construct 0 false) (binv_empty _ rfl rfl)
 
 /-! ### abstract `bwLabels` -/
 
@@ -193,35 +118,30 @@ theorem nodup_bwLabels (L : LTS) (r : Nat) : (LE.bwLabels L r).Nodup :=
 
 /-! ### the views after `init()` -/
 
-/-- everything the engine reads from the object `init c`, in terms of the abstract system `L` of the history -/
-theorem views_after_init (L : LTS) (c : LtsC) (d : DInv L c) (b : BInv c) (h : (init c).ub = false) :
+/-- everything the engine reads from the object `init c`, in terms of the abstract system `L` of the history; no
+hypothesis about the earlier `bwLabels_` -/
+theorem views_after_init (L : LTS) (c : LtsC) (d : DInv L c) :
     (init c).states = L.n ∧ (init c).labels = LE.labels L ∧ (init c).transitions = L.edges.length ∧
     (∀ a q, (init c).post a q = LE.post L a q) ∧ (∀ a r, (init c).pre a r = LE.pre L a r) ∧
     (∀ a, a < LE.labels L → ((init c).data.getD a ([], [])).1.length = L.n ∧ ((init c).data.getD a ([], [])).2.length = L.n) ∧
     (init c).bw.length = L.n ∧
-    (∀ r, r < L.n → ((init c).bwLabels r).Perm (LE.bwLabels L r) ∧
-      (∀ a, a < LE.labels L → (init c).bwCount r a = (LE.pre L a r).length) ∧
-      (c.bw.length ≤ r → (init c).bwLabels r = LE.bwLabels L r)) := by
+    (∀ r, r < L.n → (init c).bwLabels r = LE.bwLabels L r ∧
+      (∀ a, (init c).bwCount r a = (LE.pre L a r).length) ∧
+      ((init c).bw.getD r default).range = LE.labels L ∧ ((init c).bw.getD r default).bad = false) := by
   have d' := dinv_init L c d
   have hs := init_spec c (fun a => (d.lens a).2)
   refine ⟨d'.states, d'.labels, d'.trans, d'.post, d'.pre, fun a ha => ?_, by rw [hs.2.2.2.2.1, d.states], fun r hr => ?_⟩
   · have := (init_entry c d.lens a).2.2.1 (by rw [d.labels]; exact ha)
     rw [d.states] at this; exact this
   · rw [← d.states] at hr
-    have f := init_set_facts L c d b h r hr
-    refine ⟨?_, fun a ha => ?_, fun hge => ?_⟩
-    · refine (List.perm_ext_iff_of_nodup f.1 (nodup_bwLabels L r)).2 (fun a => ?_)
-      show a ∈ ((init c).bw.getD r default).keys ↔ _
-      rw [f.2.1 a, mem_bwLabels, d.labels, d.pre]
-    · unfold LtsC.bwCount
-      rw [f.2.2.1 a (by rw [d.labels]; exact ha), d.pre]
+    have f := init_set_facts L c d r hr
+    refine ⟨?_, fun a => ?_, by rw [f.1, d.labels], f.2.1⟩
     · unfold LtsC.bwLabels
-      rw [f.2.2.2.2, if_neg (by omega)]
-      simp only [List.nil_append, LE.bwLabels, d.labels]
+      rw [f.2.2.1]
+      simp only [LE.bwLabels, d.labels]
       apply List.filter_congr
       intro a _
       rw [d.pre]
-      simp only [List.contains_nil, Bool.not_false, Bool.and_true]
       by_cases e : LE.pre L a r = []
       · have : LE.hasIn L a r = false := by
           cases hh : LE.hasIn L a r
@@ -230,6 +150,8 @@ theorem views_after_init (L : LTS) (c : LtsC) (d : DInv L c) (b : BInv c) (h : (
         simp [e, this]
       · have : LE.hasIn L a r = true := (hasIn_iff L a r).2 e
         simp [this, List.length_pos_iff.2 e]
+    · unfold LtsC.bwCount
+      rw [f.2.2.2 a, d.pre]
 
 theorem run_snoc (h : List Op) (op : Op) : run (h ++ [op]) = step (run h) op := by
   simp [run, List.foldl_append]
